@@ -253,7 +253,7 @@ impl Mon {
         if lep.account_flags & ACCOUNT_IN_FLASHLOAN != 0 {
             self.r.violate("C11", "C11/Liquidate/liquidated-account-in-flashloan", format!("liquidatee {}", lek));
         }
-        if !self.r.is("C05") {
+        if !(self.r.is("C05") || self.r.is("C09")) {
             return;
         }
         self.r.eval();
@@ -395,7 +395,7 @@ impl Mon {
         if ap.account_flags & ACCOUNT_IN_FLASHLOAN != 0 {
             self.r.violate("C11", "C11/HandleBankruptcy/bankrupted-account-in-flashloan", format!("account {}", ak));
         }
-        if !self.r.is("C07") {
+        if !(self.r.is("C07") || self.r.is("C09")) {
             return;
         }
         self.r.eval();
@@ -529,7 +529,7 @@ impl Mon {
         };
         let delev = matches!(info.kind, Kind::StartDeleverage | Kind::EndDeleverage);
         let prop = if delev { "C12" } else { "C10" };
-        if !(self.r.is("C10") || self.r.is("C12")) {
+        if !(self.r.is("C10") || self.r.is("C12") || self.r.is("C09")) {
             return;
         }
         if v.ev.stack_height != 1 {
